@@ -39,15 +39,29 @@ StrLess(s, t) == IF s = <<>> THEN t # <<>> ELSE IF t = <<>> THEN FALSE
                  ELSE IF s[1] = t[1] THEN StrLess(Tail(s), Tail(t)) ELSE CharRank[s[1]] < CharRank[t[1]]
 Sortable(s) == \A i \in 1..Len(s) : s[i].st = "k" /\ \A j \in 1..Len(StrOf(s[i])) : StrOf(s[i])[j] \in DOMAIN CharRank
 
-RECURSIVE RangeSeq(_, _, _, _)
-RangeSeq(cur, lim, step, n) ==    \* quarters; bounded
-  IF n > 40 \/ (step > 0 /\ cur >= lim) \/ (step < 0 /\ cur <= lim) THEN <<>>
-  ELSE <<NumV(cur)>> \o RangeSeq(cur + step, lim, step, n + 1)
+\* number of values start, start+step, ... strictly before lim (quarters; step # 0, direction checked by the caller)
+RangeCount(start, lim, step) == IF step > 0 THEN (lim - start + step - 1) \div step ELSE (start - lim + (-step) - 1) \div (-step)
+RangeSeq(start, lim, step) == [i \in 1..RangeCount(start, lim, step) |-> NumV(start + (i - 1) * step)]
+RangeMax == 1024      \* documented limit on the number of generated values
 
 SetOf(v) == {Canon(Elems(v)[i]) : i \in 1..Len(Elems(v))}
 \* set results are compared as sets: the reference lists members in the order of the first argument(s)
 SetRes(t, members) == SeqV(t, members)
 
+\* decimal text of small numbers (shared with TextRef)
+Digits  == <<"0", "1", "2", "3", "4", "5", "6", "7", "8", "9">>
+RECURSIVE NatDigits(_)
+NatDigits(n) == IF n < 10 THEN <<Digits[n + 1]>> ELSE NatDigits(n \div 10) \o <<Digits[(n % 10) + 1]>>
+IntText(k) == IF k < 0 THEN <<"-">> \o NatDigits(-k) ELSE NatDigits(k)
+\* shortest decimal text of a quarter-lattice number of magnitude < 10^6 (as %v and JSON write it)
+QText(q) == LET m == AbsI(q) fr == m % 4 IN
+  (IF q < 0 THEN <<"-">> ELSE <<>>) \o NatDigits(m \div 4)
+  \o (CASE fr = 0 -> <<>> [] fr = 1 -> <<".", "2", "5">> [] fr = 2 -> <<".", "5">> [] fr = 3 -> <<".", "7", "5">>)
+\* conversion of a primitive value to string, as unification of mixed primitive arguments requires
+PrimToStr(v) == IF v.st = "null" THEN Null(TStr)
+                ELSE IF v.ty.k = "string" THEN v
+                ELSE IF v.ty.k = "bool" THEN StrV(IF BoolOf(v) THEN <<"t", "r", "u", "e">> ELSE <<"f", "a", "l", "s", "e">>)
+                ELSE StrV(QText(v.v.q))
 SRef(fn, a) ==
   LET n == Len(a) IN
   CASE fn = "length" ->
@@ -144,11 +158,19 @@ SRef(fn, a) ==
                   step == IF n = 3 THEN a[3].v.q ELSE (IF lim < start THEN -4 ELSE 4) IN
               IF step = 0 THEN REJ
               ELSE IF (step > 0 /\ lim < start) \/ (step < 0 /\ lim > start) THEN REJ
-              ELSE OKV(SeqV(TList(TNum), RangeSeq(start, lim, step, 0)))
+              ELSE IF RangeCount(start, lim, step) > RangeMax THEN REJ
+              ELSE OKV(SeqV(TList(TNum), RangeSeq(start, lim, step)))
          ELSE UNDEF
     [] fn = "coalesce" ->
          IF n >= 1 /\ AllSame({a[i].ty : i \in 1..n}) /\ (\A i \in 1..n : a[i].st # "unk")
          THEN (IF \A i \in 1..n : a[i].st = "null" THEN REJ ELSE OKV(a[CHOOSE i \in 1..n : a[i].st # "null" /\ \A j \in 1..(i - 1) : a[j].st = "null"]))
+         \* mixed primitive types with a string among them unify to string, whether or not the arguments are null
+         ELSE IF n >= 1 /\ (\A i \in 1..n : a[i].st # "unk" /\ IsPrimT(a[i].ty) /\ (IsNumK(a[i]) => Has(a[i].v, "q") /\ AbsI(a[i].v.q) < 4000000))
+                       /\ (\E i \in 1..n : a[i].ty.k = "string")
+         THEN (IF \A i \in 1..n : a[i].st = "null" THEN REJ
+               ELSE OKV(PrimToStr(a[CHOOSE i \in 1..n : a[i].st # "null" /\ \A j \in 1..(i - 1) : a[j].st = "null"])))
+         \* a list/map/set argument never unifies with a primitive one
+         ELSE IF n >= 2 /\ (\E i, j \in 1..n : IsPrimT(a[i].ty) /\ a[j].ty.k \in {"list", "set", "map"}) THEN REJ
          ELSE UNDEF
     [] fn = "coalescelist" ->
          IF n >= 1 /\ AllSame({a[i].ty : i \in 1..n}) /\ (\A i \in 1..n : a[i].st = "k" /\ a[i].ty.k \in {"list", "tuple"})
